@@ -274,3 +274,6 @@ def run(ctx, args):
         assumptions=["array/struct parameters written by a callee are outside the statement (the reference marks them ood and the generator does not produce them)",
                      "runs the reference ends ood / fuel / divzero / oob are not judged for values; frame isolation is judged on every run"],
         extra={"outcome_counts": counts, "activations_compared": activations, "call_returns_checked_for_isolation": returns_checked})
+
+
+replay = common.replay_vm_case
